@@ -44,3 +44,11 @@ Print Assumptions C02_sums_to_kemeny.
 Theorem C02_score_of_definition_table : forall s D c, score (cost_spec s D) c = kemeny_spec s D c.
 Proof. exact score_cost_spec. Qed.
 Print Assumptions C02_score_of_definition_table.
+
+(** multiplying the scheme by a number multiplies every entry of the table by that number (the entry of the scaled scheme is computed
+    by the same model; used by the correspondence runs that hand the library the scheme times a power of two) *)
+From Corankco Require Import Scaling.
+Theorem C02_table_homogeneous : forall k s D i j, (i < length (universe D))%nat -> (j < length (universe D))%nat ->
+  cost_table (scale_scheme k s) D i j = scale_table k (cost_table s D) i j.
+Proof. exact cost_table_scale. Qed.
+Print Assumptions C02_table_homogeneous.
